@@ -96,7 +96,15 @@ fn main() {
         "C04" => {
             run.rule = "per feature configuration ({}, gvariant, option-as-array, both — one harness build each): generated signature (maybe types also under D-Bus when the build has them) x {role-aware mutation of a valid reference encoding (D-Bus) / pokes, tail pokes, truncation, insert, delete on a reference GVariant serialisation, random bytes, structured garbage} x 12 decode targets (Value, Structure, Array, OwnedValue, String, Vec<String>, HashMap<String,Value>, tuples, Option, ObjectPath, &[u8]); oracle: no panic (catch_unwind), peak allocation during decode <= 1024*(input+signature length)+64 KiB (counting global allocator), every decoded value re-encodes without panic; non-trivial = container signature and >= 8 input bytes; distinct by hash(signature, bytes, target, format)".into();
             run.rule.push_str("; plus wide containers: structures with 100..253 variable-sized members and arrays with that many elements, fed runs of equal bytes of lengths around 128 / 256 / 512, and truncated / tail-poked valid serialisations");
-            vec![spec("crash", 300_000, 20_000_000, 220, c_crash::c04_case), spec("wide", 40_000, 2_000_000, 24, c_crash::c04_wide_case)]
+            let v = vec![spec("crash", 300_000, 20_000_000, 220, c_crash::c04_case), spec("wide", 40_000, 2_000_000, 24, c_crash::c04_wide_case)];
+            #[cfg(feature = "gvariant")]
+            let v = {
+                let mut v = v;
+                run.rule.push_str("; plus GVariant framing offsets: small dicts with string keys / arrays of variable-sized structures / nested string arrays from the reference serialiser with one or two trailing framing offsets set just beside an element boundary");
+                v.push(spec("gv-frame", 120_000, 4_000_000, 40, c_crash::c04_gvframe_case));
+                v
+            };
+            v
         }
         "C08" => {
             run.rule = "triples (a, b, c) of dynamic values of one generated type (incl. NaN, +-0, fds, maybe): b and c are copies, one-leaf near misses or fresh values; checked: reflexive/symmetric/transitive ==, cmp antisymmetric/transitive/consistent with == and partial_cmp, equal => equal hash, try_clone / try_to_owned twins keep value, equality, hash and signature, value_signature() == the type it was built with == the signature carried by its encoded variant; non-trivial = nesting depth >= 2 and the type contains a double or a dict; distinct by hash(type, a, b, c)".into();
